@@ -665,6 +665,8 @@ def replay(rec):
                 return _replay_npz(w, seed)
         except (KeyError, AttributeError, ValueError, AssertionError, TypeError, IndexError, FileNotFoundError, RuntimeError) as e:
             import traceback
+            if not any("wannierberri" in fr.filename for fr in traceback.extract_tb(e.__traceback__)):
+                raise          # an error of this replay code, not of the code under test
             return True, f"{w['kind']} {({k: v for k, v in w.items() if k not in ('data', 'E', 'A', 'M')})}: raises {type(e).__name__}: {e} [{traceback.format_exc().strip().splitlines()[-3].strip()}]"
     finally:
         shutil.rmtree(tmp, ignore_errors=True)
